@@ -232,14 +232,19 @@ func (f *fileWrapper) flattenedFileObject() (*flattenedFileObject, error) {
 		ForkCount: [2]byte{0, 2},
 	}
 
+	// A third fork is announced only when a resource fork is stored.  A stored info fork alone (e.g. after a comment
+	// was set) does not make one: the folder download would otherwise send a resource fork header that its announced
+	// item size does not include, and then fail to open the missing resource fork file.
+	if _, err := f.fs.Stat(f.rsrcPath); err == nil {
+		f.Ffo.FlatFileHeader.ForkCount[1] = 3
+	}
+
 	_, err = f.fs.Stat(f.infoPath)
 	if err == nil {
 		b, err := f.fs.ReadFile(f.infoPath)
 		if err != nil {
 			return nil, err
 		}
-
-		f.Ffo.FlatFileHeader.ForkCount[1] = 3
 
 		_, err = io.Copy(&f.Ffo.FlatFileInformationFork, bytes.NewReader(b))
 		if err != nil {
